@@ -213,6 +213,113 @@ theorem grant_one_write (st : St) (q : List (Nat × Frame)) : ((grant st q).2.fi
       obtain ⟨i, f⟩ := x
       rw [((grant_shape st _).1 ht i f rest rfl).1]; simp [isWrote, List.filter]
 
+
+/-! ## trace level: the whole output log of any execution is stop-and-wait
+
+`monStep` is a monitor over the output log: it remembers the sender whose data frame is on the wire and
+unacknowledged, rejects a second data frame while one is outstanding, and forgets the outstanding frame when
+its sender's `send` returns (acknowledged or timed out) or is cancelled. -/
+
+/-- monitor state: `none` = the log was rejected, `some o` = accepted so far with `o` the outstanding sender -/
+def monStep : Option (Option Nat) → Out → Option (Option Nat)
+  | none, _ => none
+  | some o, .wrote i _ => if o = none then some (some i) else none
+  | some o, .done i => some (if o = some i then none else o)
+  | some o, .cancelled i => some (if o = some i then none else o)
+  | some o, _ => some o
+
+theorem mon_rxOuts (l : List Rx.Out) (o : Option Nat) : (rxOuts l).foldl monStep (some o) = some o := by
+  induction l with
+  | nil => rfl
+  | cons x l ih =>
+    cases x <;> simpa [rxOuts, monStep] using ih
+
+theorem mon_grant (st : St) (q : List (Nat × Frame)) (hh : st.holder = none) :
+    (grant st q).2.foldl monStep (some none) = some ((grant st q).1.holder.map (·.id)) := by
+  induction q with
+  | nil => simp [grant, hh]
+  | cons x rest ih =>
+    obtain ⟨i, f⟩ := x
+    unfold grant
+    split
+    · simp [monStep]
+    · simp only [List.foldl_cons, monStep]
+      simpa using ih
+
+theorem mon_release (st : St) : (release st).2.foldl monStep (some none) = some ((release st).1.holder.map (·.id)) :=
+  mon_grant _ _ rfl
+
+/-- one event: the monitor, started in the state that mirrors the lock holder, accepts the step's outputs and ends
+    mirroring the new holder -/
+theorem mon_step (st : St) (e : Ev) (hinv : Inv st) :
+    (step st e).2.foldl monStep (some (st.holder.map (·.id))) = some ((step st e).1.holder.map (·.id)) := by
+  cases e with
+  | send i f =>
+    simp only [step]
+    cases hh : st.holder with
+    | some x => simp [hh]
+    | none => simpa using mon_grant st _ hh
+  | rx data =>
+    simp only [step]
+    cases hh : st.holder with
+    | none => simp [mon_rxOuts, hh]
+    | some x =>
+      simp only []
+      split
+      · rw [List.foldl_append, mon_rxOuts]
+        simp only [List.foldl_cons, monStep, Option.map_some, if_true]
+        exact mon_release _
+      · simp [mon_rxOuts, hh]
+  | tick =>
+    simp only [step]
+    cases hh : st.holder with
+    | none => simp [hh]
+    | some x =>
+      simp only [List.foldl_cons, monStep, Option.map_some, if_true]
+      exact mon_release _
+  | cancel i =>
+    simp only [step]
+    cases hh : st.holder with
+    | none => simp [hh]
+    | some x =>
+      simp only []
+      split
+      · rename_i hi
+        subst hi
+        simp only [List.foldl_cons, monStep, Option.map_some, if_true]
+        exact mon_release _
+      · rename_i hi
+        split
+        · have : ¬ (some x.id = some i) := by simpa using hi
+          simp [monStep, hh, this]
+        · simp [hh]
+  | close => simp [step]
+  | reconnect => simp [step]
+
+/-- **stop-and-wait for whole executions**: for every sequence of events (sends, received bytes in any
+    chunking, timer expiries, cancellations, close / reconnect) the output log is accepted by the monitor:
+    no data frame is ever written while another one is outstanding, and the outstanding sender is exactly the
+    lock holder -/
+theorem C07_trace (evs : List Ev) :
+    (runEvents {} evs).2.flatten.foldl monStep (some none) = some ((runEvents {} evs).1.holder.map (·.id)) := by
+  suffices h : ∀ (st : St) (log : List (List Out)), Inv st →
+      log.flatten.foldl monStep (some none) = some (st.holder.map (·.id)) →
+      let r := evs.foldl (fun acc e => let r := step acc.1 e; (r.1, acc.2 ++ [r.2])) (st, log)
+      r.2.flatten.foldl monStep (some none) = some (r.1.holder.map (·.id)) by
+    exact h {} [] C07_inv_init rfl
+  induction evs with
+  | nil => intro st log _ h; exact h
+  | cons e es ih =>
+    intro st log hinv h
+    simp only [List.foldl_cons]
+    apply ih _ _ (C07_inv_step st e hinv)
+    rw [List.flatten_append, List.foldl_append, h]
+    simpa using mon_step st e hinv
+
+/-- the monitor is not vacuous: it rejects a log with two data frames and nothing in between -/
+example : [Out.wrote 1 0, Out.wrote 2 1].foldl monStep (some none) = none := by decide
+example : [Out.wrote 1 0, Out.done 1, Out.wrote 2 1].foldl monStep (some none) = some (some 2) := by decide
+
 /-! ## non-vacuity: two senders, the second is written only when the first is acknowledged -/
 example : (runEvents {} [.send 1 (Frame.mkData 0xC0 ⟨some 0x20000#32, [1]⟩ 12),
     .send 2 (Frame.mkData 0xC0 ⟨some 0x20000#32, [2]⟩ 12), .rx (Frame.ack 0 false).serialize]).2.map
